@@ -60,6 +60,24 @@ def scenarios_for(pid, devs, rng, tier, shapes):
                         ok = False
                     if not any(st["id"] == tgt for st in s["stmts"]):
                         ok = False
+                    if dev["k"] in ("eq_independent_nonces", "eq_copy_response", "eq_unequal_shared_nonce"):
+                        if not any(st["k"] == "eq" for st in s["stmts"]):
+                            ok = False
+                        else:
+                            # the LAST credential's referenced value differs from the others
+                            s["creds"][-1]["claims"][1] = "h:Mallory" if s["creds"][0]["claims"][1][:2] == "h:" else "n:99"
+                            same = [c for c in s["creds"][:-1] if c["issuer"] == s["creds"][-1]["issuer"]]
+                            if s["creds"][-1]["claims"][1] == s["creds"][0]["claims"][1]:
+                                ok = False
+                    if dev["k"] == "extra_consistent":
+                        for st in s["stmts"]:
+                            if st["k"] == "sig" and st["id"] == tgt:
+                                n = len(s["creds"][st["cred"]]["claims"])
+                                pred = {x["claim"] for x in s["stmts"] if x["k"] == "comm" and x["ref"] == tgt}
+                                if any(x["k"] == "eq" for x in s["stmts"]):
+                                    pred.add(1)
+                                if not [i for i in range(1, n) if i not in st["disclosed"] and i not in pred]:
+                                    ok = False
                     if not ok:
                         continue
                     s["dev"] = dev
